@@ -137,6 +137,30 @@ var props = map[string]*PropSpec{
 		},
 		Assumptions: []string{"memory is abstracted to one secrecy bit per allocation site / parameter (sound over-approximation); x25519.X25519's generic path branches on whether the output is all-zero (a deliberate declassification) and is outside the property's observation points"},
 	},
+	"C04": {
+		ID:        "C04",
+		Cone:      []ConeItem{{Pkg: ".", Funcs: []string{"scMinimal"}}},
+		Quick:     twoLayouts,
+		Thorough:  allSix,
+		Technique: "contract-based deductive verification: scMinimal's postcondition result == (S < L) over the real code (loop unrolled with a concrete counter), discharged by z3/cvc5; call sites in verify/VerifyBatch are obligations of C01/C06",
+		Trusted:   []string{"M4 (L is the prime order of B) for the uniqueness reading: two accepted S, S' with equal (key, message, R) satisfy L | 8(S-S'), hence S = S' because both are below L"},
+		Assumptions: []string{"uniqueness of the accepted S is a consequence of S < L together with the verification equation (lemma, M4); it is not a separate obligation"},
+	},
+	"C19": {
+		ID:        "C19",
+		Cone:      []ConeItem{{Pkg: "internal/modm"}},
+		Quick:     twoLayouts,
+		Thorough:  []string{"default", "force32bit", "386"},
+		Technique: "contract-based deductive verification: VCs over go/ssa of the real functions, discharged by z3/cvc5, an exact polynomial normaliser and a linear-form interval back end",
+		Trusted: []string{
+			"ContractSlidingWindow: only the bit expansion, memory safety and the frame are proved of the body; the digit property of its second phase (digits odd or zero, |digit| < 2^(w-1), weighted sum = scalar for scalars < 2^253) is an explicit assumption (assume-ensures) for its callers",
+			"termination is not proved",
+		},
+		Assumptions: []string{
+			"modm.Mul on the 30-bit layout is specified for x[8] < 2^13 (x < 2^253): q1[8] keeps only 22 of the top 24 bits of x*y, so the function is exact only for x*y < 2^510; every caller in the module passes a reduced first operand (call-site obligations under C02/C06)",
+			"ContractWindow4 is specified for scalars below 2^255 (top limb bound), which is what its callers supply",
+		},
+	},
 	"C18": {
 		ID:        "C18",
 		Cone:      []ConeItem{{Pkg: "internal/curve25519"}},
